@@ -10,6 +10,7 @@ NORMAL = "str_case(self, str_strip_of(self, value))"
 
 def register(reg):
     register_virtual(reg)
+    register_simple_fields(reg)
     reg.refine("fields.string_field:StringField._validate", "core:Field._validate",
                defs={"accepts_type": (["f", "r"], STR_ACCEPTS)},
                returns="str",
@@ -27,3 +28,44 @@ def register(reg):
 
 def register_virtual(reg):
     reg.refine("fields.virtual_field:VirtualField.__getval__", "core:BaseField.__getval__")
+
+
+def register_simple_fields(reg):
+    TRUE = "('t', 'true', '1', 'on', 'yes', 'y')"
+    FALSE = "('f', 'false', '0', 'off', 'no', 'n')"
+    reg.refine("fields.bool_field:BoolField._validate", "core:Field._validate",
+               defs={"accepts_type": (["f", "r"], "typeis(r, 'bool')")}, returns="bool",
+               ensures={
+                   "C05.bool-passes-unchanged": "implies(typeis(value, 'bool'), result is value)",
+                   "C05.numbers-by-truthiness": "implies(typeis(value, 'int|float'), result == truthy(value))",
+                   "C05.true-tokens": "implies(typeis(value, 'str'), result == (lower(value) in %s) and (lower(value) in %s or lower(value) in %s))" % (TRUE, TRUE, FALSE),
+                   "C05.deterministic-and-pure": "heap_unchanged()",
+               },
+               raises={"C05.rejection-is-a-value-error": "exc_is(ValueError)",
+                       "C05.rejected-only-if-not-a-boolean-token": "not typeis(value, 'bool|int|float') and not (typeis(value, 'str') and (lower(value) in %s or lower(value) in %s))" % (TRUE, FALSE),
+                       "C05.deterministic-and-pure": "heap_unchanged()"})
+    reg.refine("fields.bytes_field:BytesField._validate", "core:Field._validate",
+               defs={"accepts_type": (["f", "r"], "typeis(r, 'bytes')")}, returns="bytes",
+               ensures={"C05.text-is-utf8-encoded": "implies(typeis(value, 'str'), result == as_bytes(value))",
+                        "C05.bytes-pass-unchanged": "implies(typeis(value, 'bytes'), result == value)",
+                        "C05.deterministic-and-pure": "heap_unchanged()"},
+               raises={"C05.rejection-is-a-value-error": "exc_is(ValueError) and not typeis(value, 'str|bytes')",
+                       "C05.deterministic-and-pure": "heap_unchanged()"})
+    ENC = "ite(self.encoding == 'base64', utf8_text(b64(value)), hex_text(value))"
+    reg.contract("fields.bytes_field:BytesField.to_basic", params={"cfg": "ref:Config", "value": "opt:bytes"}, returns="opt:str",
+                 base="core:Field.to_basic", modifies=["fresh"],
+                 requires={"known-encoding": "self.encoding == 'base64' or self.encoding == 'hex'"},
+                 defines_ensures={"C02.encoding-of": "basic_rel(self, cfg, value, result)"},
+                 ensures={"C05.none-stays-none": "implies(value is None, result is None)",
+                          "C05+C02.encoded-text": "implies(value is not None, result == %s)" % ENC,
+                          "C13.pure": "heap_unchanged() and fs_same()"},
+                 raises={"C13.pure": "heap_unchanged() and fs_same()"})
+    reg.contract("fields.bytes_field:BytesField.to_python", params={"cfg": "ref:Config", "value": "any"}, returns="opt:bytes",
+                 base="core:Field.to_python", modifies=["fresh"],
+                 requires={"known-encoding": "self.encoding == 'base64' or self.encoding == 'hex'"},
+                 ensures={"C05.none-stays-none": "implies(value is None, result is None)",
+                          "C05+C02.decodes-what-to-basic-encodes": 'forall("v:bytes", "implies(value == %s, result == v)")' % ENC.replace("value", "v"),
+                          "C13.pure": "heap_unchanged() and fs_same()"},
+                 raises={"C05.rejection-is-a-value-error": "exc_is(ValueError)",
+                         "C05+C02.own-encodings-are-never-rejected": 'forall("v:bytes", "value != %s")' % ENC.replace("value", "v"),
+                         "C13.pure": "heap_unchanged() and fs_same()"})
